@@ -7,6 +7,7 @@ CONSTANTS
   Kv <- TraceKv
   Changes <- TraceChanges
   MaxPend = 100000
+  NoSpace <- None
   Dev <- None
   Budget <- TraceBudget
 INVARIANT ObsIdxFollowsStore
